@@ -22,10 +22,12 @@ import (
 	"net/http/httptest"
 	"net/url"
 	"os"
+	"runtime"
 	"runtime/debug"
 	"sort"
 	"strings"
 	"sync"
+	"time"
 
 	"github.com/getkin/kin-openapi/openapi3"
 	"github.com/getkin/kin-openapi/openapi3filter"
@@ -65,6 +67,15 @@ func init() {
 // ------------------------------------------------------------------ run
 
 func runC10(c hx.Case) any {
+	if os.Getenv("C10_DEBUG") != "" {
+		t0 := time.Now()
+		defer func() {
+			if d := time.Since(t0); d > 500*time.Millisecond || os.Getenv("C10_DEBUG") == "time" {
+				b, _ := json.Marshal(c)
+				fmt.Fprintf(os.Stderr, "C10SLOW %v %s\n", d, b)
+			}
+		}()
+	}
 	switch jstr(c, "op") {
 	case "schema":
 		if c10DefsCyclic(jlist(c["defs"])) {
@@ -74,8 +85,65 @@ func runC10(c hx.Case) any {
 		if doc, ok := c["doc"].(map[string]any); ok && c10DocHasRefCycle(doc) {
 			return hx.RunIsolated("C10", c, 30000)
 		}
+		// a huge bracketed index can make the decoder allocate without bound (F-C10-8): never in this process
+		if rq, ok := c["req"].(map[string]any); ok && c10HugeIndex(jstr(rq, "query")) {
+			return hx.RunIsolated("C10", c, 60000)
+		}
 	}
 	return runC10InProcess(c)
+}
+
+// c10HugeIndex: a '[' (or %5B) followed, after an optional '+', by five or more digits — the same predicate as the
+// driver's hugeIndexQuery
+func c10HugeIndex(q string) bool {
+	q = strings.NewReplacer("%5B", "[", "%5b", "[", "%2B", "+").Replace(q)
+	for i := 0; i < len(q); i++ {
+		if q[i] != '[' {
+			continue
+		}
+		j := i + 1
+		if j < len(q) && q[j] == '+' {
+			j++
+		}
+		n := 0
+		for j < len(q) && q[j] >= '0' && q[j] <= '9' {
+			j++
+			n++
+		}
+		if n >= 5 {
+			return true
+		}
+	}
+	return false
+}
+
+var c10WatchdogOnce sync.Once
+
+// in a child process only: end the process as soon as the heap passes 256 MB, with a first stderr line the parent
+// reports as the crash — so that an unbounded allocation is observed without exhausting the machine
+func c10MemoryWatchdog() {
+	isChild := false
+	for _, a := range os.Args[1:] {
+		if a == "-child" || a == "--child" {
+			isChild = true
+		}
+	}
+	if !isChild {
+		return
+	}
+	c10WatchdogOnce.Do(func() {
+		go func() {
+			var m runtime.MemStats
+			for {
+				time.Sleep(20 * time.Millisecond)
+				runtime.ReadMemStats(&m)
+				if m.HeapAlloc > 256<<20 {
+					fmt.Fprintf(os.Stderr, "fatal error: C10 memory watchdog: heap exceeds 256 MB (%d MB) while one exchange is validated\n", m.HeapAlloc>>20)
+					os.Exit(3)
+				}
+			}
+		}()
+	})
 }
 
 func runC10InProcess(c hx.Case) any {
@@ -87,6 +155,7 @@ func runC10InProcess(c hx.Case) any {
 		return c10RunSchema(c)
 	case "traffic":
 		debug.SetMaxStack(32 << 20)
+		c10MemoryWatchdog()
 		return c10RunTraffic(c)
 	}
 	return map[string]any{"kind": "bad-case"}
@@ -734,8 +803,17 @@ func cmpC10x(c hx.Case, impl any, reply map[string]any) hx.Verdict {
 			_, isPanic := im["panic"]
 			switch {
 			case !isPanic:
-				// crash or hang: must be the recorded unbounded recursion
-				v.IM = jbool(model, "may_crash")
+				// crash or hang: the recorded unbounded recursion (stack overflow) or the recorded unbounded
+				// allocation (memory watchdog / no return within the time limit)
+				crash := jstr(im, "crash")
+				switch {
+				case strings.Contains(crash, "memory watchdog"):
+					v.IM = jbool(model, "may_exhaust")
+				case crash != "":
+					v.IM = jbool(model, "may_crash")
+				default: // hang
+					v.IM = jbool(model, "may_crash") || jbool(model, "may_exhaust")
+				}
 			default:
 				v.IM = c10PanicsAllowed(im, jbool(model, "may_unprintable"), jbool(model, "may_copy_panic"))
 			}
@@ -813,7 +891,7 @@ func genC10(ctx *hx.Ctx, emit func(hx.Case)) {
 		}
 	}
 	// ---- schema fragment: exhaustive small environments
-	shapes := c10SchemaShapes(2)
+	shapes := c10SchemaShapes(2, ctx.Thorough())
 	vals := []any{1, []any{[]any{2}, 3}}
 	if ctx.Thorough() {
 		vals = []any{1, []any{}, []any{1}, []any{[]any{2}, 3}}
@@ -860,7 +938,7 @@ func c10URLMutations(s string) []string {
 	return out
 }
 
-func c10SchemaShapes(nDefs int) []any {
+func c10SchemaShapes(nDefs int, thorough bool) []any {
 	leafs := []any{map[string]any{"leaf": true}, map[string]any{"leaf": false}, map[string]any{"ref": 0}}
 	var out []any
 	// node(allOf ⊆ leafs (≤2), items ∈ none ∪ leafs)
@@ -898,6 +976,9 @@ func c10SchemaShapes(nDefs int) []any {
 			for _, al := range [][]any{{}, {ref0}} {
 				for _, it := range []any{nil, ref0} {
 					for _, own := range []bool{false, true} {
+						if own && !thorough {
+							continue // `own` only matters to IsEmpty, which is not evaluated on schemas with sub-schemas
+						}
 						out = append(out, map[string]any{"own": own, "not": nt, "anyOf": ay, "allOf": al, "items": it})
 					}
 				}
@@ -1238,7 +1319,8 @@ var c10CTs = []string{"", "application/json", "application/json; charset=utf-8",
 	"application/json;", "*/*", "application/*", "multipart/form-data; boundary=", "x", "application/x-yaml", "application/yaml; charset=utf-8", "text/csv; header=present"}
 var c10Queries = []string{"", "q=1", "q=x", "q=1&q=2", "q", "q=", "q=1,2", "q[a]=1", "q[a]=1&q[a][b]=2", "q[b]=1&q[b][c]=2", "p[b]=1&p[b][c]=2", "q=%zz", "q=a|b", "q=a%20b",
 	"q=[1,2]", "q={\"a\":1}", "q={", "p=1&q=2", "q=1&q=x", "&&&", "q=null", "q=true", "q[]=1", "q[a][b][c]=1", "q.a=1", "q=9223372036854775808", "q=1e400", "q=b,c",
-	"q=NaN", "q=NaN&q=1", "q=1,Inf", "q[a]=nan", "p=-Infinity&q=2", "q=inf|1", "q=1%20NaN", "q[b]=NaN&q[c]=1"}
+	"q=NaN", "q=NaN&q=1", "q=1,Inf", "q[a]=nan", "p=-Infinity&q=2", "q=inf|1", "q=1%20NaN", "q[b]=NaN&q[c]=1",
+	"q[b][0]=1&q[b][1]=2", "q[b][3]=1", "q[b][4095]=1", "q[b][-1]=1", "q[b][x]=1", "q[b][0][0]=1", "p[b][2]=7&p[b][0]=1", "q[0]=1&q[1]=2", "q[b][999]=x"}
 var c10Values = []string{"5", "x", "", "a/b", "%2F", ".5", "1,2", ".1.2", ";x=1", "a=1,b=2", "true", "{x}",
 	"NaN", "1,NaN", "Inf,2", "-inf", "+Infinity", "nan,nan", "1e999", "0x1p-2", "1_0"}
 
@@ -1376,6 +1458,40 @@ func c10RandTraffic(r *hx.Rng) hx.Case {
 			req["ct"] = "application/zip"
 			req["body"] = ""
 			req["body_b64"] = base64.StdEncoding.EncodeToString(c10ZipBytes(r))
+		case k < 25: // deepObject query parameter with array / nested properties, addressed by bracketed indexes
+			m := hx.Pick(r, ops)
+			op := doc["paths"].(map[string]any)[tpl].(map[string]any)[m].(map[string]any)
+			name := hx.Pick(r, []string{"p", "q"})
+			prm := map[string]any{"name": name, "in": "query", "style": "deepObject", "explode": true, "schema": c10J(hx.Pick(r, []string{
+				`{"type":"object","properties":{"b":{"type":"array","items":{"type":"integer"}}}}`,
+				`{"type":"object","properties":{"b":{"type":"array","items":{"type":"integer","nullable":true}},"a":{"type":"integer"}}}`,
+				`{"type":"object","properties":{"b":{"type":"array","items":{"type":"array","items":{"type":"string"}}}}}`,
+				`{"type":"object","additionalProperties":{"type":"array","items":{"type":"number"}}}`,
+				`{"type":"object","properties":{"b":{"type":"array","items":{"type":"object","properties":{"c":{"type":"integer"}}}}}}`,
+				`{"type":"object","properties":{"b":{"oneOf":[{"type":"array","items":{"type":"integer"}},{"type":"string"}]}}}`}))}
+			var ps []any
+			for _, x := range jlist(op["parameters"]) {
+				if pm, ok := x.(map[string]any); ok && pm["in"] == "query" && pm["name"] == name {
+					continue
+				}
+				ps = append(ps, x)
+			}
+			op["parameters"] = append(ps, prm)
+			req["method"] = strings.ToUpper(m)
+			idx := hx.Pick(r, []string{"0", "1", "2", "7", "00", "+1", "-1", "x", "", "4095", "999", "1e3", "0x10", " 1"})
+			if r.Chance(2) {
+				idx = hx.Pick(r, []string{"2000000000", "9223372036854775807", "+4000000000", "100000000000"}) // F-C10-8 (runs in a child)
+			}
+			q := name + "[b][" + idx + "]=" + hx.Pick(r, []string{"1", "x", "", "NaN"})
+			switch r.Intn(4) {
+			case 0:
+				q += "&" + name + "[b][0]=2"
+			case 1:
+				q += "&" + name + "[b][" + idx + "][0]=3"
+			case 2:
+				q += "&" + name + "[a]=1&" + name + "[b][1][c]=4"
+			}
+			req["query"] = q
 		}
 	}
 	return hx.Case{"op": "traffic", "doc": doc, "router": hx.Pick(r, []string{"legacy", "gorilla"}), "req": req, "resp": resp, "opts": opts}
